@@ -11,6 +11,7 @@ import (
 	"hop.computer/hop/certs"
 	"hop.computer/hop/keys"
 	"hop.computer/hop/transport"
+	"hop.computer/hop/tubes"
 )
 
 // VerifListen, when set, replaces the UDP socket NewHopServer opens (check-time source seam
@@ -66,4 +67,17 @@ func (v *VerifSession) CheckIntent(i authgrants.Intent, c *certs.Certificate) er
 // VerifGrantNames lists the command texts of the grants still stored for user/key.
 func VerifGrantNames(s *HopServer, user string, key keys.DHPublicKey) []string {
 	return s.agMap.VerifNames(user, key)
+}
+
+// SetPeerLeaf gives the session a transport handle that reports leaf as the client certificate.
+func (v *VerifSession) SetPeerLeaf(leaf *certs.Certificate) {
+	v.s.transportConn = transport.VerifHandleWithLeaf(leaf)
+}
+
+// HandleAgc / StartPF are what hopSession.start dispatches an authorization-grant tube and a
+// port-forwarding control tube to.
+func (v *VerifSession) HandleAgc(t *tubes.Reliable) { v.s.handleAgc(t) }
+func (v *VerifSession) StartPF(t *tubes.Reliable, m *tubes.Muxer) {
+	v.s.tubeMuxer = m
+	v.s.startPF(t)
 }
